@@ -154,3 +154,4 @@ mod c02_archive_footer;
 #[cfg(kani)]
 mod c08_manifests;
 
+
